@@ -141,3 +141,30 @@ Theorem plsr_cp_shift_invariance (init : tensor R -> list (tensor R)) (ne_solve 
 Proof.
   exact (plsr_shift_invariance (inner_cp Rops sqrt init tol n_iter) (lstsq_ne Rops ne_solve) ncomp X Y c d n sx m).
 Qed.
+
+(* the statements about fit as the source behaves (cp_plsr_fit: budget 0 rejected) *)
+Theorem plsr_fit_unit_norm init ne_solve tol n_iter ncomp X Y r c :
+  cp_plsr_fit Rops sqrt init ne_solve tol n_iter ncomp X Y = Ok r -> In c (comps r) ->
+  (forall l, In l (c_load c) -> sumsq Rops l = 1%R \/ sumsq Rops l = 0%R) /\
+  (sumsq Rops (c_yload c) = 1%R \/ sumsq Rops (c_yload c) = 0%R).
+Proof.
+  intros H Hin. rewrite (cp_plsr_fit_ok Rops sqrt init ne_solve tol _ _ _ _ _ H) in Hin.
+  destruct (plsr_unit_norm init ne_solve tol n_iter ncomp X Y c Hin) as [H1 H2]. split.
+  - intros l Hl. destruct (Req_dec (sumsq Rops l) 0) as [E|E]; [right; exact E | left; exact (H1 l Hl E)].
+  - destruct (Req_dec (sumsq Rops (c_yload c)) 0) as [E|E]; [right; exact E | left; exact (H2 E)].
+Qed.
+
+Theorem plsr_fit_shift_invariance (init : tensor R -> list (tensor R)) (ne_solve : list (list R) -> list R -> list R)
+  (tol : R) (n_iter ncomp : nat) (X Y c d : tensor R) (n : nat) (sx : list nat) (m : nat) r :
+  shape X = n :: sx -> shape Y = [n; m] -> 0 < n ->
+  cp_plsr_fit Rops sqrt init ne_solve tol n_iter ncomp X Y = Ok r ->
+  exists r', cp_plsr_fit Rops sqrt init ne_solve tol n_iter ncomp (shift Rops X c) (shift Rops Y d) = Ok r' /\
+  comps r' = comps r /\ loadings r' = loadings r /\ fitted_scores r' = fitted_scores r /\
+  forall Xn i o, sshape Xn = sx -> i < nsamp Xn -> o < m ->
+    tget Rops (fit_predict Rops r' (shift Rops Xn c)) [i; o] = (tget Rops (fit_predict Rops r Xn) [i; o] + tget Rops d [o])%R.
+Proof.
+  intros HX HY Hn H. pose proof (cp_plsr_fit_ok Rops sqrt init ne_solve tol _ _ _ _ _ H) as ->.
+  exists (fit_cp Rops sqrt init ne_solve tol n_iter ncomp (shift Rops X c) (shift Rops Y d)). split.
+  - unfold cp_plsr_fit in *. destruct ((n_iter =? 0) && (0 <? ncomp)); [discriminate | reflexivity].
+  - exact (plsr_cp_shift_invariance init ne_solve tol n_iter ncomp X Y c d n sx m HX HY Hn).
+Qed.
